@@ -137,7 +137,7 @@ def bad_fh(steps, fault, kind="list"):
     raise ValueError(fault)
 
 
-BAD_INT = {"zero": 0, "negative": -2, "fractional": 2.5, "string": "3"}
+BAD_INT = {"zero": 0, "negative": -2, "fractional": 2.5, "string": "3", "bool_true": True}  # (a boolean is not an integer: is_int)
 
 
 def expect_rejected(r, what, est=None, fresh=True):
